@@ -9,7 +9,10 @@ static int digit_value (int c) {
   return (((c)<='9') ? ((c) - '0') : ((sexp_tolower(c) - 'a') + 10));
 }
 
-sexp json_read (sexp ctx, sexp self, sexp in);
+/* nested arrays and objects recurse on the C stack, so limit the depth */
+#define JSON_MAX_DEPTH 1000
+
+sexp json_read (sexp ctx, sexp self, sexp in, int depth);
 
 sexp sexp_json_read_exception (sexp ctx, sexp self, const char* msg, sexp in, sexp ir) {
   sexp res;
@@ -172,7 +175,7 @@ sexp json_read_string (sexp ctx, sexp self, sexp in) {
   return res;
 }
 
-sexp json_read_array (sexp ctx, sexp self, sexp in) {
+sexp json_read_array (sexp ctx, sexp self, sexp in, int depth) {
   sexp_gc_var2(res, tmp);
   sexp_gc_preserve2(ctx, res, tmp);
   int comma = 1, ch;
@@ -198,7 +201,7 @@ sexp json_read_array (sexp ctx, sexp self, sexp in) {
     } else if (!isspace(ch)) {
       if (comma) {
         sexp_push_char(ctx, ch, in);
-        tmp = json_read(ctx, self, in);
+        tmp = json_read(ctx, self, in, depth);
         if (sexp_exceptionp(tmp)) {
           res = tmp;
           break;
@@ -215,7 +218,7 @@ sexp json_read_array (sexp ctx, sexp self, sexp in) {
   return res;
 }
 
-sexp json_read_object (sexp ctx, sexp self, sexp in) {
+sexp json_read_object (sexp ctx, sexp self, sexp in, int depth) {
   sexp_gc_var2(res, tmp);
   sexp_gc_preserve2(ctx, res, tmp);
   int comma = 1, ch;
@@ -240,7 +243,7 @@ sexp json_read_object (sexp ctx, sexp self, sexp in) {
     } else if (!isspace(ch)) {
       if (comma) {
         sexp_push_char(ctx, ch, in);
-        tmp = json_read(ctx, self, in);
+        tmp = json_read(ctx, self, in, depth);
         if (sexp_exceptionp(tmp)) {
           res = tmp;
           break;
@@ -254,7 +257,7 @@ sexp json_read_object (sexp ctx, sexp self, sexp in) {
           res = sexp_json_read_exception(ctx, self, "missing colon in json object", in, sexp_make_character(ch));
           break;
         }
-        sexp_cdr(tmp) = json_read(ctx, self, in);
+        sexp_cdr(tmp) = json_read(ctx, self, in, depth);
         if (sexp_exceptionp(sexp_cdr(tmp))) {
           res = sexp_cdr(tmp);
           break;
@@ -271,17 +274,19 @@ sexp json_read_object (sexp ctx, sexp self, sexp in) {
   return res;
 }
 
-sexp json_read (sexp ctx, sexp self, sexp in) {
+sexp json_read (sexp ctx, sexp self, sexp in, int depth) {
   sexp res;
   int ch = ' ';
   while (isspace(ch))
     ch = sexp_read_char(ctx, in);
+  if ((ch == '{' || ch == '[') && depth >= JSON_MAX_DEPTH)
+    return sexp_json_read_exception(ctx, self, "json nested too deeply", in, SEXP_NULL);
   switch (ch) {
   case '{':
-    res = json_read_object(ctx, self, in);
+    res = json_read_object(ctx, self, in, depth + 1);
     break;
   case '[':
-    res = json_read_array(ctx, self, in);
+    res = json_read_array(ctx, self, in, depth + 1);
     break;
   case '"':
     res = json_read_string(ctx, self, in);
@@ -316,11 +321,11 @@ sexp json_read (sexp ctx, sexp self, sexp in) {
 
 sexp sexp_json_read (sexp ctx, sexp self, sexp_sint_t n, sexp in) {
   sexp_assert_type(ctx, sexp_iportp, SEXP_IPORT, in);
-  return json_read(ctx, self, in);
+  return json_read(ctx, self, in, 0);
 }
 
 
-sexp json_write (sexp ctx, sexp self, sexp obj, sexp out);
+sexp json_write (sexp ctx, sexp self, sexp obj, sexp out, int depth);
 
 #define FLONUM_SIGNIFICANT_DIGITS 10
 #define FLONUM_EXP_MAX_DIGITS 3
@@ -388,12 +393,12 @@ sexp json_write_string(sexp ctx, sexp self, const sexp obj, sexp out) {
   return SEXP_VOID;
 }
 
-sexp json_write_array(sexp ctx, sexp self, const sexp obj, sexp out) {
+sexp json_write_array(sexp ctx, sexp self, const sexp obj, sexp out, int depth) {
   sexp tmp;
   int len = sexp_vector_length(obj), i;
   sexp_write_string(ctx, "[", out);
   for (i = 0; i < len; ++i) {
-    tmp = json_write(ctx, self, sexp_vector_ref(obj, sexp_make_fixnum(i)), out);
+    tmp = json_write(ctx, self, sexp_vector_ref(obj, sexp_make_fixnum(i)), out, depth);
     if (sexp_exceptionp(tmp)) {
       return tmp;
     }
@@ -405,7 +410,7 @@ sexp json_write_array(sexp ctx, sexp self, const sexp obj, sexp out) {
   return SEXP_VOID;
 }
 
-sexp json_write_object(sexp ctx, sexp self, const sexp obj, sexp out) {
+sexp json_write_object(sexp ctx, sexp self, const sexp obj, sexp out, int depth) {
   sexp ls, cur, key, val;
   sexp_gc_var2(tmp, res);
   if (sexp_length(ctx, obj) == SEXP_FALSE)
@@ -427,14 +432,14 @@ sexp json_write_object(sexp ctx, sexp self, const sexp obj, sexp out) {
       break;
     }
     tmp = sexp_symbol_to_string(ctx, key);
-    tmp = json_write(ctx, self, tmp, out);
+    tmp = json_write(ctx, self, tmp, out, depth);
     if (sexp_exceptionp(tmp)) {
       res = tmp;
       break;
     }
     sexp_write_char(ctx, ':', out);
     val = sexp_cdr(cur);
-    tmp = json_write(ctx, self, val, out);
+    tmp = json_write(ctx, self, val, out, depth);
     if (sexp_exceptionp(tmp)) {
       res = tmp;
       break;
@@ -445,18 +450,20 @@ sexp json_write_object(sexp ctx, sexp self, const sexp obj, sexp out) {
   return res;
 }
 
-sexp json_write (sexp ctx, sexp self, const sexp obj, sexp out) {
+sexp json_write (sexp ctx, sexp self, const sexp obj, sexp out, int depth) {
   sexp_gc_var1(res);
   sexp_gc_preserve1(ctx, res);
   res = SEXP_VOID;
-  if (sexp_symbolp(obj)) {
+  if ((sexp_pairp(obj) || sexp_vectorp(obj)) && depth >= JSON_MAX_DEPTH) {
+    res = sexp_json_write_exception(ctx, self, "unable to encode element: nested too deeply", SEXP_NULL);
+  } else if (sexp_symbolp(obj)) {
     res = sexp_write(ctx, obj, out);
   } else if (sexp_stringp(obj)) {
     res = json_write_string(ctx, self, obj, out);
   } else if (sexp_listp(ctx, obj) == SEXP_TRUE) {
-    res = json_write_object(ctx, self, obj, out);
+    res = json_write_object(ctx, self, obj, out, depth + 1);
   } else if (sexp_vectorp(obj)) {
-    res = json_write_array(ctx, self, obj, out);
+    res = json_write_array(ctx, self, obj, out, depth + 1);
   } else if (sexp_fixnump(obj)) {
     res = sexp_write(ctx, obj, out);
   } else if (sexp_flonump(obj)) {
@@ -483,7 +490,7 @@ sexp json_write (sexp ctx, sexp self, const sexp obj, sexp out) {
 
 sexp sexp_json_write (sexp ctx, sexp self, sexp_sint_t n, sexp obj, sexp out) {
   sexp_assert_type(ctx, sexp_oportp, SEXP_OPORT, out);
-  return json_write(ctx, self, obj, out);
+  return json_write(ctx, self, obj, out, 0);
 }
 
 
